@@ -2418,8 +2418,17 @@ pub fn round() -> impl Function {
         (data_type::Float::default(), data_type::Integer::default()),
         data_type::Float::default(),
         |a, b| {
-            let multiplier = 10.0_f64.powi(b as i32);
-            (a * multiplier).round() / multiplier
+            // Beyond the precision of a float the operation is the identity (or 0):
+            // 10^b must not overflow into NaN results
+            let multiplier = 10.0_f64.powi(b.clamp(-400, 400) as i32);
+            let result = (a * multiplier).round() / multiplier;
+            if multiplier == 0. {
+                0.
+            } else if result.is_finite() {
+                result
+            } else {
+                a
+            }
         },
     )
 }
@@ -2431,8 +2440,17 @@ pub fn trunc() -> impl Function {
         (data_type::Float::default(), data_type::Integer::default()),
         data_type::Float::default(),
         |a, b| {
-            let multiplier = 10.0_f64.powi(b as i32);
-            (a * multiplier).trunc() / multiplier
+            // Beyond the precision of a float the operation is the identity (or 0):
+            // 10^b must not overflow into NaN results
+            let multiplier = 10.0_f64.powi(b.clamp(-400, 400) as i32);
+            let result = (a * multiplier).trunc() / multiplier;
+            if multiplier == 0. {
+                0.
+            } else if result.is_finite() {
+                result
+            } else {
+                a
+            }
         },
     )
 }
